@@ -201,6 +201,9 @@ def addmm(x1:Tensor, x2:Tensor, x3:Tensor):
     if not (x1.device == x2.device == x3.device):
         raise RuntimeError(f"x1 and x2 and x3 must be on the same device")
     
+    if x2.ndim < 2 or x3.ndim < 2: # same rule as matmul
+        raise ValueError(f"At least two dimensions are required for x2 and x3")
+    
     if x1.device == Device.CPU:
         out_data = cpu_ops.addmm_forward(x1.data, x2.data, x3.data)
     else:
